@@ -1,4 +1,69 @@
-import LabreaModel.Eval
+/-
+  C02 — memoization is effective: one body run per relevant option assignment.
+-/
+import LabreaModel.CacheLemmas
+import LabreaProps.C03
 namespace Labrea
-theorem c02_placeholder : True := trivial
+
+variable (env : Env) (run : Run) (x : Expr) (c : Nat) (o : V)
+
+/-- **second_hit.** Once an entry is stored under the fingerprint of `o`, the next `Cached.evaluate` whose
+    fingerprint is the same finds it: the memory backend answers `exists` with yes and `get` with the stored
+    value, so (`cached_hit`) the body is not evaluated again.  Stated on the backend: after a store under `fp`,
+    a lookup under `fp` yields the stored value, in the same or any later state that keeps the entry. -/
+theorem second_hit (s : St) (fp v : V) :
+    entryLookup fp ((s.setCacheEntries c (entryInsert fp v (s.cacheEntries c))).cacheEntries c) = some v :=
+  store_then_lookup s c fp v
+
+/-- a hit runs no user code of the inner expression and no effect: effects sit inside `Cached`
+    (`Dataset._composed` = WithDefaultOptions(WithOptions(cached(Logged(Computation(…, effects)))))), and
+    the right-hand side of `cached_hit` does not mention the inner expression at all -/
+theorem hit_runs_nothing (s s1 s2 : St) (v : V) (he : existsReq env run x c o s = some (.ok true, s1))
+    (hg : getReq env run x c o s1 = some (.ok v, s2)) (x' : Expr)
+    (he' : existsReq env run x' c o s = some (.ok true, s1)) (hg' : getReq env run x' c o s1 = some (.ok v, s2)) :
+    cachedOp env run x c .evaluate o s = cachedOp env run x' c .evaluate o s := by
+  rw [cached_hit env run x c o s s1 s2 v he hg, cached_hit env run x' c o s s1 s2 v he' hg']
+
+/-- **irrelevant_key / perm_top.** The fingerprint is computed from the *sorted* reported keys and the values
+    under them, so adding or changing options nothing refers to, or permuting the top level of the dictionary
+    (which changes no lookup), leaves it unchanged. -/
+theorem fingerprint_ignores_irrelevant (o o' : V) (ks : List String) (h : ∀ k ∈ ks, getDotted k o' = getDotted k o) :
+    fpPure o' (sortStrings ks) = fpPure o (sortStrings ks) :=
+  fingerprint_agree o o' _ (fun k hk => h k ((sortStrings_mem ks k).mp hk))
+
+/-- effects run after the body, with its value, once per body execution: `Computation.evaluate` is
+    "value ← body; for each effect: callback ← effect expression; callback(value)" -/
+theorem effects_after_body (effects : List Expr) (s s1 s2 : St) (v sw : V)
+    (hx : run .evaluate x o s = some (.ok v, s1))
+    (hs : run .evaluate effectsDisabledOption o s1 = some (.ok sw, s2)) (ht : sw.truthy = false) :
+    computationOp env run x effects .evaluate o s =
+      (do forM' (fun cb => do
+            let f ← run .evaluate cb o
+            let _ ← call env f [v] []
+            pure ()) effects
+          pure v : M V) s2 := by
+  simp [computationOp, bind_run, hx, hs, ht]
+
+/-- if the body fails no effect runs -/
+theorem no_effect_when_body_fails (effects : List Expr) (s s1 : St) (err : Err)
+    (hx : run .evaluate x o s = some (.error err, s1)) :
+    computationOp env run x effects .evaluate o s = some (.error err, s1) := by
+  simp [computationOp, bind_run, hx]
+
+/-! non-vacuity: a diamond evaluated once (kernel-evaluated): `f(a = d, b = d)` with `d` cached calls `g` once -/
+def c02Env : Env :=
+  { β := fun f a k => .ok (.app f a k), binds := fun _ _ => .error "x", ov := fun _ => default, ds := fun _ => default,
+    cacheKind := fun _ => .memory }
+
+def diamond : Expr :=
+  let d := Expr.cached 3 (.funApp 2 (.value 1 (.fn "g" [] [])) [.option 7 "A" Option.none Option.none] []) 0
+  .funApp 5 (.value 4 (.fn "f" [] [])) [d, d] []
+
+def callsOf (name : String) (evs : List Event) : Nat :=
+  (evs.filter fun e => match e with | .call f _ _ => f == name | _ => false).length
+
+example : (match ev c02Env 30 .evaluate diamond (.dict [("A", .int 1)]) {} with
+    | some (.ok _, s) => callsOf "g" s.events == 1 && callsOf "f" s.events == 1
+    | _ => false) = true := by decide +kernel
+
 end Labrea
